@@ -84,6 +84,18 @@ class Work:
                 if n != 1:
                     continue
                 open(os.path.join(ddir, f), "w").write(txt2)
+        # Export shim for rtcmlogger's unexported copy loop and recorder (used by the in-process C16 leg only;
+        # if the functions change shape that leg's package fails to build and the leg is skipped).
+        shim = os.path.join(self.src, "vhapps", "rtcmlogger")
+        if os.path.isdir(shim):
+            open(os.path.join(shim, "vh_export.go"), "w").write(
+                "package rtcmloggerapp\n\nimport (\n\t\"io\"\n\n\t\"github.com/goblimey/go-ntrip/apps/rtcmlogger/config\"\n)\n\n"
+                "// VHCopy wires the application's copy loop to its recorder exactly as start does, but with the\n"
+                "// record writer supplied by the harness.\n"
+                "func VHCopy(record io.Writer, cfg *config.Config) {\n"
+                "\tch := make(chan []byte)\n\tdone := make(chan struct{})\n"
+                "\tgo func() {\n\t\trecorder(ch, record, cfg)\n\t\tclose(done)\n\t}()\n"
+                "\treadAndWrite(ch, cfg)\n\tclose(ch)\n\t<-done\n}\n")
         # The scheduling-perturbation package is always present (a no-op unless configured).
         sched = os.path.join(self.src, "vhsched")
         os.makedirs(sched, exist_ok=True)
@@ -552,8 +564,8 @@ def check_property(pid, tier, seed):
                     works[wkey] = w
                     w.populate(instrument=leg.instrument)
                 w = works[wkey]
-                if leg.instrument:
-                    # an instrumented build that does not compile is the rewriter's problem, not a verdict
+                if leg.instrument or leg.optional_build:
+                    # an instrumented / shim-dependent build that does not compile is the harness's problem, not a verdict
                     try:
                         w.build_test(leg.pkg, race=leg.race, goarch=leg.goarch, tags=leg.tags)
                         for a in leg.app or []:
